@@ -53,6 +53,7 @@ import (
 	msgdkim "github.com/emersion/go-msgauth/dkim"
 	"github.com/emersion/go-smtp"
 	"github.com/foxcpp/go-mockdns"
+	"github.com/foxcpp/maddy/framework/address"
 	"github.com/foxcpp/maddy/framework/buffer"
 	"github.com/foxcpp/maddy/framework/config"
 	"github.com/foxcpp/maddy/framework/dns"
@@ -68,6 +69,7 @@ import (
 	"github.com/foxcpp/maddy/internal/verifshim/vh"
 	"github.com/foxcpp/maddy/internal/verifshim/vsmtp"
 	"golang.org/x/net/idna"
+	"golang.org/x/text/unicode/norm"
 )
 
 // ---------------------------------------------------------------- environment (once per run)
@@ -80,7 +82,11 @@ type c08Sender struct {
 	subdomains bool
 	keyDomain  string // domain whose key signs
 	wantD      string // expected d= tag ("" = do not check)
+	notCovered bool   // (round 9) the configuration does not cover this sender: unsigned, or signed verifiably
 }
+
+// c08CoveredSenders: the variants below this index are covered by their configuration (must be signed)
+const c08CoveredSenders = 18
 
 func c08ALabel(s string) string {
 	a, err := idna.ToASCII(s)
@@ -111,6 +117,14 @@ func c08Senders() []c08Sender {
 		11: {from: "user@example.org", utf8: true, domains: d, selector: "ключ", keyDomain: "example.org", wantD: "example.org"},
 		12: {from: "postmaster", utf8: false, domains: d, selector: "sel", keyDomain: "example.org", wantD: "example.org"},
 		13: {from: "USER@EXAMPLE.ORG", utf8: false, domains: d, selector: "sel", keyDomain: "example.org", wantD: "EXAMPLE.ORG"},
+		// (round 9) sign_subdomains: two levels; IDN parent (EAI, U-label sender without SMTPUTF8, parent configured in A-labels)
+		14: {from: "user@a.b.example.org", utf8: true, domains: []string{"example.org"}, selector: "sel", subdomains: true, keyDomain: "example.org", wantD: "example.org"},
+		15: {from: "юзер@почта." + ru, utf8: true, domains: []string{ru}, selector: "sel", subdomains: true, keyDomain: ru, wantD: ru},
+		16: {from: "user@mail." + ru, utf8: false, domains: []string{ru}, selector: "ключ", subdomains: true, keyDomain: ru, wantD: ruA},
+		17: {from: "user@MAIL.sub.xn--mnchen-3ya.example", utf8: false, domains: []string{"xn--mnchen-3ya.example"}, selector: "sel", subdomains: true, keyDomain: "xn--mnchen-3ya.example", wantD: "xn--mnchen-3ya.example"},
+		// the parent part spelled differently from the configuration: not covered (left unsigned by the unchanged code)
+		18: {from: "user@mail.EXAMPLE.ORG", utf8: false, domains: []string{"example.org"}, selector: "sel", subdomains: true, keyDomain: "example.org", notCovered: true},
+		19: {from: "user@mail." + ruA, utf8: false, domains: []string{ru}, selector: "sel", subdomains: true, keyDomain: ru, notCovered: true},
 	}
 }
 
@@ -576,7 +590,7 @@ func c08GenCase(r *vh.Rng, mode string) *c08Case {
 		c.body = vc08.Wild(r, append([]byte("x\r\n"), c.body...))
 	}
 	c.tgt = r.Pick("s", "u", "r")
-	if c.sender == 2 && c.tgt == "s" {
+	if (c.sender == 2 || c.sender == 15) && c.tgt == "s" {
 		c.tgt = "u" // a non-ASCII local part cannot be relayed to a server without SMTPUTF8
 	}
 	return c
@@ -986,6 +1000,10 @@ func (env *c08Env) sign(c *c08Case, op string, quiet bool) *c08Signed {
 		return nil
 	}
 	if hdr.Len() != len(presign)+1 {
+		if sd.notCovered && hdr.Len() == len(presign) {
+			stat("sign.unsigned.not-covered")
+			return nil
+		}
 		stat("sign.unsigned")
 		viol("C08/not-signed", "the modifier returned no error and added no signature")
 		return nil
@@ -2884,7 +2902,7 @@ func c08ParseClockCase(op string) (*c08ClockCase, error) {
 			return nil, errors.New("bad clock expiry")
 		}
 	}
-	if c.sender, err = strconv.Atoi(h[7]); err != nil || c.sender < 0 || c.sender >= len(c08Senders()) {
+	if c.sender, err = strconv.Atoi(h[7]); err != nil || c.sender < 0 || c.sender >= c08CoveredSenders {
 		return nil, errors.New("bad clock sender")
 	}
 	for _, m := range strings.Fields(g[1]) {
@@ -2925,7 +2943,7 @@ func c08Rand64(r *vh.Rng, n int64) int64 {
 }
 
 func c08GenClockCase(r *vh.Rng) *c08ClockCase {
-	c := &c08ClockCase{algo: r.Pick("rsa2048", "ed25519", "ed25519"), hc: r.Pick("relaxed", "simple"), bc: r.Pick("relaxed", "simple"), sender: r.Intn(len(c08Senders()))}
+	c := &c08ClockCase{algo: r.Pick("rsa2048", "ed25519", "ed25519"), hc: r.Pick("relaxed", "simple"), bc: r.Pick("relaxed", "simple"), sender: r.Intn(c08CoveredSenders)}
 	c.expiry = c08ClockExpiries[r.Intn(len(c08ClockExpiries))]
 	e := c.expiry
 	if e < 0 {
@@ -3163,5 +3181,560 @@ func TestVerifC08Clock(t *testing.T) {
 	}
 	for i := 0; i < n; i++ {
 		env.runClock(c08GenClockCase(r))
+	}
+}
+
+// ---------------------------------------------------------------- which key signs, in whose name (round 9)
+//
+// A case is ONE modify.dkim instance (sign_subdomains yes|no, 1-3 configured domains in any spelling, any selector;
+// keys generated by maddy in a fresh directory or RSA keys brought along) and a list of envelope senders:
+//
+//	C08 select <y|n> <selector> <r|e> | <domain>=<dns.ForLookup> … | <name>=<dns.ForLookup|!>=<idna.ToASCII|!> … | <u|a>:<from|->:<e|n|domain> …
+//
+// (u = message with SMTPUTF8, a = without; the third part of a sender is what address.Split makes of it: error, no
+// domain, the domain; the table holds the library results for every name the signer may ask about.)  Per sender the
+// real RewriteBody runs on a generated message.  Compared with the model (Model/DkimKeys.lean selectKey): unsigned |
+// err | signed d= s= i= and the entry of the signers map whose key signed.  Monitor, from the property alone: the DNS
+// holds exactly the records the signer published - for every configured domain the record of the key the instance
+// holds for it, under <selector>._domainkey.<domain> -; WHATEVER signature the modifier adds must verify against it
+// (go-msgauth, check.dkim), a non-EAI message carries no U-label, a sender the configuration covers as spelled (the
+// configured domain itself, or with sign_subdomains a name ending in "." + the configured domain) is signed; a
+// sender the configuration does not cover is left unsigned or signed verifiably - never signed unverifiably.
+
+type c08SelSender struct {
+	from string
+	utf8 bool
+}
+
+type c08SelCase struct {
+	sub     bool
+	sel     string
+	algo    string // rsa2048 (keys brought along: the keys of the run) | ed25519 (generated by maddy)
+	doms    []string
+	senders []c08SelSender
+}
+
+func c08HexOrDash(s string) string {
+	if s == "" {
+		return "-"
+	}
+	return vh.HexBytes([]byte(s))
+}
+
+func c08UnhexOrDash(s string) string {
+	if s == "-" {
+		return ""
+	}
+	return string(vh.UnhexBytes(s))
+}
+
+func (k *c08SelCase) op() string {
+	var ds, tab, ss []string
+	names := []string{}
+	seen := map[string]bool{}
+	add := func(n string) {
+		if n != "" && !seen[n] {
+			seen[n] = true
+			names = append(names, n)
+		}
+	}
+	for _, d := range k.doms {
+		nd, _ := dns.ForLookup(d)
+		ds = append(ds, vh.HexBytes([]byte(d))+"="+vh.HexBytes([]byte(nd)))
+		add(d)
+	}
+	add(k.sel)
+	for _, s := range k.senders {
+		u := "a"
+		if s.utf8 {
+			u = "u"
+		}
+		sp := "n"
+		if s.from != "" {
+			_, dom, err := address.Split(s.from)
+			switch {
+			case err != nil:
+				sp = "e"
+			case dom != "":
+				sp = vh.HexBytes([]byte(dom))
+				add(dom)
+			}
+		}
+		ss = append(ss, u+":"+c08HexOrDash(s.from)+":"+sp)
+	}
+	for _, n := range names {
+		nf, af := "!", "!"
+		if x, err := dns.ForLookup(n); err == nil {
+			nf = c08HexOrDash(x)
+		}
+		if x, err := idna.ToASCII(n); err == nil {
+			af = c08HexOrDash(x)
+		}
+		tab = append(tab, vh.HexBytes([]byte(n))+"="+nf+"="+af)
+	}
+	sub := "n"
+	if k.sub {
+		sub = "y"
+	}
+	return fmt.Sprintf("C08 select %s %s %s | %s | %s | %s", sub, vh.HexBytes([]byte(k.sel)), k.algo[:1], strings.Join(ds, " "), strings.Join(tab, " "), strings.Join(ss, " "))
+}
+
+func c08ParseSelCase(op string) (*c08SelCase, error) {
+	g := strings.Split(op, " | ")
+	if len(g) != 4 {
+		return nil, errors.New("bad select op")
+	}
+	h := strings.Fields(g[0])
+	if len(h) != 5 || h[0] != "C08" || h[1] != "select" || (h[2] != "y" && h[2] != "n") || (h[4] != "r" && h[4] != "e") {
+		return nil, errors.New("bad select op head")
+	}
+	k := &c08SelCase{sub: h[2] == "y", sel: string(vh.UnhexBytes(h[3])), algo: map[string]string{"r": "rsa2048", "e": "ed25519"}[h[4]]}
+	for _, d := range strings.Fields(g[1]) {
+		k.doms = append(k.doms, string(vh.UnhexBytes(strings.SplitN(d, "=", 2)[0])))
+	}
+	for _, s := range strings.Fields(g[3]) {
+		p := strings.Split(s, ":")
+		if len(p) != 3 || (p[0] != "u" && p[0] != "a") {
+			return nil, errors.New("bad select sender " + s)
+		}
+		k.senders = append(k.senders, c08SelSender{from: c08UnhexOrDash(p[1]), utf8: p[0] == "u"})
+	}
+	if len(k.doms) == 0 || (k.sub && len(k.doms) != 1) {
+		return nil, errors.New("bad select op: domains")
+	}
+	return k, nil
+}
+
+// c08Respell: another spelling of the same domain - letter case (all, per letter, per label), A-labels, U-labels, NFD
+func c08Respell(r *vh.Rng, d string) string {
+	for try := 0; try < 8; try++ {
+		var x string
+		switch r.Intn(7) {
+		case 0:
+			x = strings.ToUpper(d)
+		case 1:
+			x = strings.ToLower(d)
+		case 2:
+			rs := []rune(d)
+			for i := range rs {
+				if r.Chance(50) {
+					rs[i] = []rune(strings.ToUpper(string(rs[i])))[0]
+				}
+			}
+			x = string(rs)
+		case 3:
+			if a, err := idna.ToASCII(norm.NFC.String(strings.ToLower(d))); err == nil {
+				x = a
+				if r.Chance(30) {
+					x = strings.ToUpper(x)
+				}
+			}
+		case 4:
+			if u, err := idna.ToUnicode(strings.ToLower(d)); err == nil {
+				x = u
+			}
+		case 5:
+			if u, err := idna.ToUnicode(strings.ToLower(d)); err == nil {
+				x = norm.NFD.String(u)
+			}
+		case 6:
+			ls := strings.Split(d, ".")
+			for i, l := range ls {
+				rs := []rune(l)
+				if len(rs) > 0 && r.Chance(70) {
+					rs[0] = []rune(strings.ToUpper(string(rs[0])))[0]
+				}
+				ls[i] = string(rs)
+			}
+			x = strings.Join(ls, ".")
+		}
+		if x != "" && x != d {
+			return x
+		}
+	}
+	return strings.ToUpper(d)
+}
+
+var c08SubLabels = []string{"mail", "mail", "mx1", "a.b", "MAIL", "News.Lists", "почта", "xn--80a1acny", "bücher", "x", "a.b.c"}
+
+// c08GenSelSender: a sender for the configuration of k; the returned kind names its relation to the configuration
+func c08GenSelSender(r *vh.Rng, k *c08SelCase) (c08SelSender, string) {
+	base := k.doms[r.Intn(len(k.doms))]
+	var dom, kind string
+	switch p := r.Intn(100); {
+	case p < 12:
+		dom, kind = base, "domain.as-configured"
+	case p < 27:
+		dom, kind = c08Respell(r, base), "domain.respelled"
+	case p < 42:
+		dom, kind = c08SubLabels[r.Intn(len(c08SubLabels))]+"."+base, "subdomain.parent-as-configured"
+	case p < 72:
+		dom, kind = c08SubLabels[r.Intn(len(c08SubLabels))]+"."+c08Respell(r, base), "subdomain.parent-respelled"
+	case p < 77:
+		// the whole name respelled (label and parent)
+		dom, kind = c08Respell(r, c08SubLabels[r.Intn(len(c08SubLabels))]+"."+base), "subdomain.all-respelled"
+	case p < 87:
+		g := vc08.KeyDomains[r.Intn(len(vc08.KeyDomains))]
+		dom, kind = g[r.Intn(len(g))], "unrelated"
+		for _, d := range k.doms {
+			if dns.Equal(d, dom) {
+				dom = "other.test"
+			}
+		}
+	case p < 93:
+		// look-alikes: the configured name without the dot in front, as a prefix, with a label appended
+		switch r.Intn(3) {
+		case 0:
+			dom = "not" + base
+		case 1:
+			dom = base + ".evil.test"
+		default:
+			dom = "mail." + base + "x"
+		}
+		kind = "look-alike"
+	case p < 96:
+		return c08SelSender{from: r.Pick("", "postmaster", "POSTMASTER", "Postmaster"), utf8: r.Chance(50)}, "no-domain"
+	case p < 98:
+		return c08SelSender{from: r.Pick("no-at-sign", "@"+base, "user@"), utf8: r.Chance(50)}, "malformed"
+	default:
+		// names the IDNA functions refuse
+		dom, kind = r.Pick("xn--0.example", "mail.xn--.example", "a..example", "xn--mail-.example")+r.Pick("", "."+base), "invalid-idn"
+	}
+	utf8 := r.Chance(50)
+	local := r.Pick("user", "user", "USER", "first.last", "\"quoted local\"")
+	if utf8 && r.Chance(35) {
+		local = r.Pick("юзер", "büro", "用户")
+	}
+	return c08SelSender{from: local + "@" + dom, utf8: utf8}, kind
+}
+
+func c08GenSelCase(r *vh.Rng) *c08SelCase {
+	k := &c08SelCase{sub: r.Chance(65), sel: vc08.KeySelectors[r.Intn(len(vc08.KeySelectors))], algo: "ed25519"}
+	if r.Chance(30) {
+		k.algo = "rsa2048"
+	}
+	n := 1
+	if !k.sub {
+		n = 1 + r.Intn(3)
+	}
+	used := map[int]bool{}
+	for len(k.doms) < n {
+		g := r.Intn(len(vc08.KeyDomains))
+		if used[g] {
+			continue
+		}
+		used[g] = true
+		sp := vc08.KeyDomains[g]
+		d := sp[r.Intn(len(sp))]
+		if r.Chance(15) {
+			d = c08Respell(r, d)
+		}
+		k.doms = append(k.doms, d)
+	}
+	for i := 0; i < 4+r.Intn(4); i++ {
+		s, _ := c08GenSelSender(r, k)
+		k.senders = append(k.senders, s)
+	}
+	return k
+}
+
+// c08SelCovered: does the configuration cover the sender AS SPELLED (the documented meaning of `domains` and
+// `sign_subdomains`: the domain itself, or a name below the configured one)?  The monitor's own reading.
+func c08SelCovered(k *c08SelCase, from string) (dom string, covered bool) {
+	if from == "" || strings.EqualFold(from, "postmaster") {
+		return "", true // the first key signs for the null return path and for postmaster
+	}
+	i := strings.LastIndexByte(from, '@')
+	if i <= 0 || i == len(from)-1 {
+		return "", false
+	}
+	dom = from[i+1:]
+	for _, d := range k.doms {
+		if d == dom {
+			return dom, true
+		}
+	}
+	if k.sub && strings.HasSuffix(dom, "."+k.doms[0]) {
+		return dom, true
+	}
+	return dom, false
+}
+
+func (env *c08Env) runSelect(k *c08SelCase) {
+	out := env.out
+	op := k.op()
+	dir, err := os.MkdirTemp("", "verif-c08-sel-")
+	if err != nil {
+		env.t.Fatal(err)
+	}
+	defer os.RemoveAll(dir)
+	var seed uint64 = 1469598103934665603
+	for i := 0; i < len(op); i++ {
+		seed = (seed ^ uint64(op[i])) * 1099511628211
+	}
+	r := vh.NewRng(seed)
+	const tmpl = "{domain}_{selector}.key"
+	out.Stat(fmt.Sprintf("select.sign_subdomains.%v", k.sub))
+	out.Stat(fmt.Sprintf("select.domains.%d", len(k.doms)))
+	out.Stat("select.keys." + k.algo)
+	for _, d := range k.doms {
+		nd, _ := dns.ForLookup(d)
+		switch {
+		case !isASCII(d) && norm.NFC.String(d) != d:
+			out.Stat("select.configured.nfd")
+		case !isASCII(d):
+			out.Stat("select.configured.u-label")
+		case !isASCII(nd) && strings.ToLower(d) != d:
+			out.Stat("select.configured.a-label-upper")
+		case !isASCII(nd):
+			out.Stat("select.configured.a-label")
+		case strings.ToLower(d) != d:
+			out.Stat("select.configured.ascii-mixed-case")
+		default:
+			out.Stat("select.configured.ascii")
+		}
+	}
+	adminRec := map[string]string{}
+	if k.algo == "rsa2048" {
+		// RSA keys are brought along (the keys of the run, "copied from another server"): nothing expensive is generated
+		for i, d := range k.doms {
+			pemBytes, pub, _, err := env.importedKey(r, "rsa2048", i+int(seed%1000))
+			if err != nil {
+				env.t.Fatal(err)
+			}
+			full := filepath.Join(dir, vc08.ExpandKeyPath(tmpl, d, k.sel))
+			if err := os.WriteFile(full, pemBytes, 0o600); err != nil {
+				env.t.Fatal(err)
+			}
+			adminRec[c08PubID(pub)] = vc08.FormatRecord(pub)
+		}
+	}
+	mod, ierr := c08ModifierAt(filepath.Join(dir, tmpl), k.algo, c08Sender{domains: k.doms, selector: k.sel, subdomains: k.sub}, r.Pick("relaxed", "simple"), r.Pick("relaxed", "simple"), true, nil, nil)
+	if ierr != nil {
+		out.Violation("C08/key-init-fails", op, ierr.Error())
+		return
+	}
+	files, err := vc08.ScanKeyDir(dir)
+	if err != nil {
+		env.t.Fatal(err)
+	}
+	// the DNS: exactly the records the signer published - per configured domain the record of the key held for it
+	published := map[string]string{}
+	signers := moddkim.C08SignerPublics(mod)
+	for _, d := range k.doms {
+		nd, _ := dns.ForLookup(d)
+		pub := signers[nd]
+		if pub == nil {
+			out.Violation("C08/key-no-signer", op, "no key for configured domain "+d)
+			continue
+		}
+		rec := adminRec[c08PubID(pub)]
+		for _, f := range files {
+			if f.Kind == "r" && vc08.SamePublic(f.Pub, pub) {
+				rec = string(f.Content)
+			}
+		}
+		if rec == "" {
+			out.Violation("C08/key-record-not-written", op, "no record file carries the key generated for "+d)
+			continue
+		}
+		published[c08Norm(k.sel, d)] = rec
+	}
+	lookup := func(name string) ([]string, error) {
+		i := strings.Index(strings.ToLower(name), "._domainkey.")
+		if i < 0 {
+			return nil, errors.New("c08: unexpected TXT query " + name)
+		}
+		rec, ok := published[c08Norm(name[:i], name[i+len("._domainkey."):])]
+		if !ok {
+			return nil, &net.DNSError{Err: "no such host", Name: name, IsNotFound: true}
+		}
+		return []string{rec}, nil
+	}
+	var used []string
+	moddkim.C08RecordSignerUse(mod, func(entry string) { used = append(used, entry) })
+	ctx := context.Background()
+	var obs []string
+	for si, sd := range k.senders {
+		eai := "non-eai"
+		if sd.utf8 {
+			eai = "eai"
+		}
+		dom, covered := c08SelCovered(k, sd.from)
+		// the relation of the sender to the configuration, for the distribution
+		rel := "unrelated"
+		switch {
+		case dom == "" && covered:
+			rel = "no-domain"
+		case dom == "":
+			rel = "malformed"
+		case covered && k.sub && strings.HasSuffix(dom, "."+k.doms[0]):
+			rel = fmt.Sprintf("subdomain-as-configured.levels-%d", strings.Count(strings.TrimSuffix(dom, "."+k.doms[0]), ".")+1)
+		case covered:
+			rel = "domain-as-configured"
+		default:
+			nd, nerr := dns.ForLookup(dom)
+			for _, d := range k.doms {
+				cd, _ := dns.ForLookup(d)
+				switch {
+				case nerr != nil:
+					rel = "invalid-name"
+				case nd == cd:
+					rel = "domain-respelled"
+				case strings.HasSuffix(dom, "."+d) && rel == "unrelated":
+					rel = "subdomain-as-configured(sign_subdomains-off)"
+				case strings.HasSuffix(nd, "."+cd) && rel == "unrelated":
+					rel = "subdomain-parent-respelled"
+				}
+			}
+		}
+		out.Stat(fmt.Sprintf("select.sender.sub=%v.%s.%s", k.sub, rel, eai))
+		fields, body := c08KeyMessage(r, sd.utf8)
+		hdr, err := textproto.ReadHeader(bufio.NewReader(bytes.NewReader(vc08.Join(fields, nil))))
+		if err != nil {
+			env.t.Fatal("generated header refused: ", err)
+		}
+		st, err := mod.(module.Modifier).ModStateForMsg(ctx, &module.MsgMetadata{ID: "c08s", SMTPOpts: smtp.MailOptions{UTF8: sd.utf8}})
+		if err != nil {
+			env.t.Fatal(err)
+		}
+		st.RewriteSender(ctx, sd.from)
+		nBefore := hdr.Len()
+		used = nil
+		detail := fmt.Sprintf("sender %d <%s> (%s, %s; sign_subdomains %v, domains %q, selector %q)", si+1, sd.from, eai, rel, k.sub, k.doms, k.sel)
+		if err := st.RewriteBody(ctx, &hdr, buffer.MemoryBuffer{Slice: body}); err != nil {
+			obs = append(obs, "err")
+			out.Stat("select.outcome.error")
+			if dom != "" || covered {
+				out.Violation("C08/sign-error", op, detail+": RewriteBody: "+err.Error())
+			}
+			continue
+		}
+		if hdr.Len() == nBefore {
+			obs = append(obs, "unsigned")
+			out.Stat("select.outcome.unsigned." + rel)
+			_, aerr := idna.ToASCII(dom)
+			_, serr := idna.ToASCII(k.sel)
+			if covered && (sd.utf8 || (aerr == nil && serr == nil)) {
+				out.Violation("C08/not-signed", op, detail+": the configuration covers the sender as spelled, the modifier added no signature")
+			}
+			continue
+		}
+		if hdr.Len() != nBefore+1 || len(used) != 1 {
+			out.Violation("C08/harness-signature-shape", op, fmt.Sprintf("%s: %d fields added, %d keys used", detail, hdr.Len()-nBefore, len(used)))
+			obs = append(obs, "?")
+			continue
+		}
+		out.Stat("select.outcome.signed." + rel)
+		d, s, ident := c08SigTag(hdr, "d"), c08SigTag(hdr, "s"), c08SigTag(hdr, "i")
+		obs = append(obs, fmt.Sprintf("signed d=%s s=%s i=%s key=%s", c08HexOrDash(d), c08HexOrDash(s), c08HexOrDash(ident), c08HexOrDash(used[0])))
+		if !sd.utf8 && (!isASCII(d) || !isASCII(s) || !isASCII(ident)) {
+			out.Violation("C08/non-eai-u-label", op, detail+": non-EAI message signed with non-ASCII d=/s=/i=: "+d+" "+s+" "+ident)
+		}
+		var msg bytes.Buffer
+		textproto.WriteHeader(&msg, hdr)
+		msg.Write(body)
+		why := ""
+		vs, err := msgdkim.VerifyWithOptions(bytes.NewReader(msg.Bytes()), &msgdkim.VerifyOptions{LookupTXT: lookup})
+		switch {
+		case err != nil:
+			why = "go-msgauth: " + err.Error()
+		case len(vs) != 1:
+			why = fmt.Sprintf("go-msgauth sees %d signatures", len(vs))
+		case vs[0].Err != nil:
+			why = fmt.Sprintf("go-msgauth against the DNS holding the records the signer published (d=%s s=%s, signed with the key held for %s): %v", d, s, used[0], vs[0].Err)
+		}
+		if why != "" {
+			out.Violation("C08/verify-fails-published-key", op, detail+": "+why)
+		} else {
+			out.Stat("select.verify.ok")
+		}
+		chk, err := checkdkim.C08NewCheck(c08Resolver{&mockdns.Resolver{}, lookup})
+		if err != nil {
+			env.t.Fatal(err)
+		}
+		cst, err := chk.CheckStateForMsg(ctx, &module.MsgMetadata{ID: "c08sv"})
+		if err != nil {
+			env.t.Fatal(err)
+		}
+		pass, vals := false, []string(nil)
+		for _, ar := range cst.CheckBody(ctx, hdr, buffer.MemoryBuffer{Slice: body}).AuthResult {
+			if dr, ok := ar.(*authres.DKIMResult); ok {
+				pass = pass || dr.Value == authres.ResultPass
+				vals = append(vals, string(dr.Value)+"("+dr.Reason+")")
+			}
+		}
+		if !pass {
+			out.Violation("C08/maddy-check-fails-published-key", op, detail+": check.dkim: "+strings.Join(vals, ","))
+		}
+	}
+	// the hypothesis of C08_signed_domain_has_published_key about the library: the A-label form of a name has the
+	// normal form of the name (every name of the case)
+	for _, t := range strings.Fields(strings.Split(op, " | ")[2]) {
+		n := string(vh.UnhexBytes(strings.SplitN(t, "=", 2)[0]))
+		a, aerr := idna.ToASCII(n)
+		if aerr != nil {
+			continue
+		}
+		x, xerr := dns.ForLookup(n)
+		y, yerr := dns.ForLookup(a)
+		if (xerr == nil) != (yerr == nil) || (xerr == nil && x != y) {
+			out.Stat("select.law.ascii-keeps-norm.broken")
+			out.Note(fmt.Sprintf("ForLookup(ToASCII(%q)) = %q, ForLookup = %q", n, y, x))
+		} else {
+			out.Stat("select.law.ascii-keeps-norm.holds")
+		}
+	}
+	out.Corr(op, strings.Join(obs, " ; "))
+}
+
+func TestVerifC08Select(t *testing.T) {
+	t.Parallel()
+	out := vh.Open("c08_select")
+	defer out.Close()
+	env := c08NewEnv(t, out, false)
+	if c08Replay(t, "C08 select ", func(op string) {
+		k, err := c08ParseSelCase(op)
+		if err != nil {
+			t.Fatal(err)
+		}
+		env.runSelect(k)
+	}) {
+		return
+	}
+	r := vh.NewRng(vh.Seed() + 809)
+	n := vh.N(600)/10 + 2
+	// every run (not left to chance): sign_subdomains with an ASCII, a U-label, an A-label and an NFD-spelled
+	// configured domain x senders at the domain, below it (1-2 levels), with the parent part in another spelling
+	// (case, A-/U-label, NFD), look-alikes and unrelated names, each EAI and non-EAI; and the same without sign_subdomains
+	both := func(froms ...string) []c08SelSender {
+		var l []c08SelSender
+		for _, f := range froms {
+			l = append(l, c08SelSender{f, false}, c08SelSender{f, true})
+		}
+		return l
+	}
+	for _, fx := range []struct {
+		doms  []string
+		sel   string
+		froms []string
+	}{
+		{[]string{"example.org"}, "sel", []string{"user@example.org", "user@mail.example.org", "user@a.b.example.org", "user@mail.EXAMPLE.ORG", "user@EXAMPLE.ORG",
+			"user@Mail.Example.Org", "user@notexample.org", "user@example.org.evil.test", "", "postmaster"}},
+		{[]string{"пример.example"}, "ключ", []string{"user@почта.пример.example", "user@mail.xn--e1afmkfd.example", "user@mail.пример.example", "user@MAIL.Пример.Example",
+			"user@xn--e1afmkfd.example", "user@sub.XN--E1AFMKFD.EXAMPLE", "user@xn--80a1acny.xn--e1afmkfd.example", "user@пример.example"}},
+		{[]string{"xn--bcher-kva.example"}, "S2024", []string{"user@mail.bücher.example", "user@mail.xn--bcher-kva.example", "user@mail.bu\u0308cher.example", "user@bücher.example",
+			"user@MAIL.XN--BCHER-KVA.EXAMPLE", "user@a.b.Xn--Bcher-Kva.example", "user@bu\u0308cher.example"}},
+		{[]string{"bu\u0308cher.example"}, "sel", []string{"user@mail.bu\u0308cher.example", "user@mail.bücher.example", "user@bu\u0308cher.example", "user@mail.xn--bcher-kva.example", "user@BÜCHER.example"}},
+		{[]string{"Example.Org"}, "xn--h1ajdq", []string{"user@mail.Example.Org", "user@mail.example.org", "user@example.org", "user@x.Example.Org.", "user@Example.Org"}},
+	} {
+		for _, sub := range []bool{true, false} {
+			env.runSelect(&c08SelCase{sub: sub, sel: fx.sel, algo: map[bool]string{true: "ed25519", false: "rsa2048"}[sub], doms: fx.doms, senders: both(fx.froms...)})
+		}
+	}
+	env.runSelect(&c08SelCase{sub: false, sel: "sel", algo: "ed25519", doms: []string{"Example.Org", "bu\u0308cher.example", "sub.пример.example"},
+		senders: both("user@example.org", "user@bu\u0308cher.example", "user@bücher.example", "user@sub.xn--e1afmkfd.example", "user@x.sub.пример.example", "user@пример.example", "user@mail.Example.Org", "USER@SUB.ПРИМЕР.EXAMPLE")})
+	for i := 0; i < n; i++ {
+		env.runSelect(c08GenSelCase(r))
 	}
 }
